@@ -45,9 +45,49 @@ def _alarm(signum, frame):  # pragma: no cover - only pathological runs
     raise _RunTimeout()
 
 
-def execute_plan(prop, plan: dict) -> dict:
+def exec_plan_here(pid: str, path: str) -> int:
+    """Child side of a run that asked for another interpreter configuration (e.g. -O)."""
+    prop = load_prop(pid)
+    prepare(prop)
+    with open(path) as src:
+        plan = json.load(src)
+    result = execute_plan(prop, plan, nested=True)
+    print("RESULT " + json.dumps(result, default=core._default), flush=True)
+    return 0
+
+
+def _execute_in_interpreter(prop, plan: dict) -> dict:
+    """A run whose plan asks for interpreter flags (`python -O`: asserts stripped, __debug__ False) is executed in a
+    fresh interpreter started that way; everything else about the run is the same."""
+    import subprocess
+    import tempfile
+
+    flags = list(plan["interpreter"])
+    with tempfile.NamedTemporaryFile("w", suffix=".json", delete=False) as dst:
+        json.dump(plan, dst, default=core._default)
+        path = dst.name
+    try:
+        env = dict(os.environ, VERIF_NO_REEXEC="1", PYTHONHASHSEED=os.environ.get("PYTHONHASHSEED", "0"))
+        proc = subprocess.run([sys.executable] + flags + [os.path.join(VERIF, "check"), prop.ID, "--exec-plan", path], capture_output=True, text=True, env=env, timeout=RUN_WALL_CAP_S * 2)
+    except subprocess.TimeoutExpired:
+        return {"violations": [], "events": [["run-timeout"]], "stats": {"undecided:run-timeout": 1}, "sigs": []}
+    finally:
+        os.unlink(path)
+    for line in proc.stdout.splitlines()[::-1]:
+        if line.startswith("RESULT "):
+            result = json.loads(line[7:])
+            result["stats"]["probe:ran_in_interpreter_" + "".join(flags)] = 1
+            return result
+    raise core.HarnessError(f"interpreter {flags} produced no result: {proc.stderr[-400:]}")
+
+
+def execute_plan(prop, plan: dict, nested: bool = False) -> dict:
     """Execute one plan under the run wall cap; never lets an exception escape
     except HarnessError."""
+    if plan.get("interpreter") and not nested:
+        result = _execute_in_interpreter(prop, plan)
+        result["digest"] = core.digest(result["events"])
+        return result
     old = signal.signal(signal.SIGALRM, _alarm)
     signal.setitimer(signal.ITIMER_REAL, RUN_WALL_CAP_S)
     try:
